@@ -78,3 +78,22 @@ Proof. reflexivity. Qed.
 Theorem C11_blacklist_nodup_suffix :
   forallb (fun w => negb (existsb (str_eqb (w ++ [95%N])) Labels.blacklist)) Labels.blacklist = true.
 Proof. vm_compute. reflexivity. Qed.
+
+(* ---- the original key is recoverable from the emitted literal (proofs: Proofs/PyLexProps.v via Proofs/KeyRecover.v);
+   the body that carries the literal: C04_pydantic_alias (alias=json(key) exactly when the label differs from the key) ---- *)
+From Coq Require Import String.
+From J2M.Model Require Import Framework Emit PyLex.
+From J2M.Proofs Require Import KeyRecover.
+
+Theorem C11_alias_literal_recoverable :
+  forall name : str, py_unescape (json_escape_raw name) = Some name.
+Proof. exact KeyRecover.alias_literal_recoverable. Qed.
+
+Theorem C11_metadata_literal_recoverable :
+  forall (is_printable_c : N -> bool) (name : str),
+       (forall c : N, In c name -> (c < 1114112)%N) ->
+       metadata_kw is_printable_c name =
+       (s_ "metadata", s_ "{'J2M_ORIGINAL_FIELD': " ++ py_repr is_printable_c name ++ s_ "}") /\
+       py_unescape (py_repr is_printable_c name) = Some name.
+Proof. exact KeyRecover.metadata_literal_recoverable. Qed.
+
